@@ -704,7 +704,7 @@ META = {
              'after the last write on every path (or, for the re-indexer, before its first write and first internal lookup); adding a '
              'feature always marks the container unsorted and every index-based lookup re-indexes first. Hence no query result can '
              'stem from an earlier add/sort state. Does NOT decide exactness of the interval queries themselves.'),
-    'technique': 'static analysis: field read-closure of memoised methods, computed mutator set, dominator/post-dominator check of cache_clear placement; small-scope abstract execution of findFeaturesBetween (sorted feature lists of <= 3 features over coordinates 0..5, every range and strand) where the structural reading cannot decide',
+    'technique': 'static analysis: field read-closure of memoised methods, computed mutator set, dominator/post-dominator check of cache_clear placement; small-scope abstract execution of findFeaturesBetween (sorted feature lists of <= 3 features over coordinates 0..5, every range and strand) where the structural reading cannot decide; the whole container through add / query histories (numpy and lru_cache semantics modelled, every query asked twice after every batch of adds; rule R9), hand-written memo keys by dataflow',
     'design_ref': 'DESIGN.md section 5, C16',
 }
 
